@@ -162,13 +162,7 @@ def correspond(ctx):
         if ro != mo:
             ctx.disagree("deserialize-model-vs-code", term=sx, text=s, idx=idx, h=h, w=w, real=ro, model=mo)
     # --- regenerated puzzle table agrees with the live objects (tie of Gen/PuzzleCombinators.lean)
-    objs = sc.puzzle_objects()
-    outs = drv.run(["(pcomb %s)" % p for p in sc.PUZZLES])
-    for p, mo in zip(sc.PUZZLES, outs):
-        live = sc.comb_sx(objs[p][1])
-        got = core.parse_sx(mo)
-        if not isinstance(got, list) or core.sx(got[0]) != core.sx(core.parse_sx(live)):
-            ctx.disagree("puzzle-table-stale", puzzle=p, live=live, table=mo)
+    sc.check_puzzle_table(ctx, drv, sc.puzzle_objects())
 
 
 # ---------------------------------------------------------------------------------------------- search (real code only)
